@@ -303,7 +303,7 @@ func runC04(c *seqCtx) {
 						if a == "resource" && kind != "call" && kind != "auth" {
 							return true
 						}
-						if a == "setmeta" && (kind == "get" || kind == "new") {
+						if (a == "setmeta" || a == "setmeta201") && (kind == "get" || kind == "new") {
 							return true // not part of those request interfaces
 						}
 					}
